@@ -69,19 +69,31 @@ std::string ref_trim(const std::string& s, const std::string& drop, bool left, b
         while (e > b && drop.find(s[e - 1]) != npos) --e;
     return s.substr(b, e - b);
 }
+//! Wagner-Fischer over the full (|a|+1) x (|b|+1) matrix
 size_t ref_levenshtein(const std::string& a, const std::string& b, bool icase) {
-    std::vector<std::vector<size_t>> d(a.size() + 1, std::vector<size_t>(b.size() + 1, 0));
-    for (size_t i = 0; i <= a.size(); ++i) d[i][0] = i;
-    for (size_t j = 0; j <= b.size(); ++j) d[0][j] = j;
+    const size_t w = b.size() + 1;
+    std::vector<uint32_t> d((a.size() + 1) * w, 0);
+    for (size_t i = 0; i <= a.size(); ++i) d[i * w] = (uint32_t)i;
+    for (size_t j = 0; j <= b.size(); ++j) d[j] = (uint32_t)j;
     for (size_t i = 1; i <= a.size(); ++i)
         for (size_t j = 1; j <= b.size(); ++j) {
             bool eq = icase ? ref_lower((unsigned char)a[i - 1]) == ref_lower((unsigned char)b[j - 1]) : a[i - 1] == b[j - 1];
-            d[i][j] = std::min(std::min(d[i - 1][j] + 1, d[i][j - 1] + 1), d[i - 1][j - 1] + (eq ? 0 : 1));
+            d[i * w + j] = std::min(std::min(d[(i - 1) * w + j] + 1, d[i * w + j - 1] + 1), d[(i - 1) * w + j - 1] + (eq ? 0 : 1));
         }
-    return d[a.size()][b.size()];
+    return d[a.size() * w + b.size()];
 }
 
 std::string flip_case(std::string s, pbt::Source& src) {
+    if (long_mode()) { // flip every letter / one letter in 2..256 (positions from a drawn seed)
+        size_t rate = (size_t)1 << src.range(0, 8);
+        Rng rng(src.bits(4));
+        for (char& c : s)
+            if (rng.one_in(rate)) {
+                unsigned char u = (unsigned char)c;
+                c = (char)(ref_lower(u) != u ? ref_lower(u) : ref_upper(u));
+            }
+        return s;
+    }
     for (char& c : s)
         if (src.boolean()) {
             unsigned char u = (unsigned char)c;
@@ -90,8 +102,59 @@ std::string flip_case(std::string s, pbt::Source& src) {
     return s;
 }
 
+//! *_long targets: the same relations at scale (long substrings / prefixes / suffixes, a handful of edits at positions
+//! expanded from a seed, an unrelated short or long string). `cap` bounds the length of unrelated strings.
+std::string gen_related_long(pbt::Source& src, const std::string& hay, const std::string& alphabet, size_t maxlen, size_t cap) {
+    switch (src.range(0, 9)) {
+    case 1: { // substring of any length
+        size_t b = src.index(hay.size() + 1);
+        size_t n = src.boolean() ? (size_t)src.range(0, 4) : src.index(hay.size() - b + 1);
+        return hay.substr(b, n);
+    }
+    case 2: return hay;
+    case 3: { // one byte changed
+        std::string s = hay;
+        if (!s.empty()) s[src.index(s.size())] = alphabet[src.index(alphabet.size())];
+        return s;
+    }
+    case 4: return flip_case(hay, src);
+    case 5: { // suffix, possibly with flipped case
+        size_t b = src.boolean() ? src.index(hay.size() + 1) : std::min(hay.size(), (size_t)src.range(0, 3));
+        return flip_case(hay.substr(b), src);
+    }
+    case 6: { // prefix / extension
+        if (src.boolean()) return hay.substr(0, src.boolean() ? src.index(hay.size() + 1) : hay.size() - std::min(hay.size(), (size_t)src.range(0, 3)));
+        return hay + gen_over(src, alphabet, 2);
+    }
+    case 7: { // 1..8 edits (insert / delete / replace) at arbitrary positions, sometimes with flipped case as well
+        std::string s = hay;
+        size_t edits = 1 + (size_t)src.range(0, 7);
+        bool flip = src.chance(64);
+        Rng rng(src.bits(4));
+        for (size_t e = 0; e < edits; ++e) {
+            size_t p = rng.below(s.size() + 1);
+            char c = alphabet[rng.below(alphabet.size())];
+            switch (rng.below(3)) {
+            case 0: s.insert(p, 1, c); break;
+            case 1: if (p < s.size()) s.erase(p, 1); break;
+            default: if (p < s.size()) s[p] = c; break;
+            }
+        }
+        return flip ? flip_case(s, src) : s;
+    }
+    case 8: return gen_long(src, alphabet, cap); // unrelated long string
+    case 9: { // both ends changed
+        std::string s = hay;
+        if (!s.empty()) s[0] = alphabet[src.index(alphabet.size())], s[s.size() - 1] = alphabet[src.index(alphabet.size())];
+        return s;
+    }
+    default: return gen_over(src, alphabet, maxlen);
+    }
+}
+
 //! a second string related to the first (so that matches, prefixes, near-misses are common)
-std::string gen_related(pbt::Source& src, const std::string& hay, const std::string& alphabet, size_t maxlen) {
+std::string gen_related(pbt::Source& src, const std::string& hay, const std::string& alphabet, size_t maxlen, size_t cap = 5000) {
+    if (long_mode()) return gen_related_long(src, hay, alphabet, maxlen, cap);
     switch (src.range(0, 6)) {
     case 1: // substring
         if (!hay.empty()) {
@@ -120,6 +183,12 @@ std::string gen_related(pbt::Source& src, const std::string& hay, const std::str
 
 #define HCHECK(cond, lab, msg) PBT_CHECK(cond, lab, msg)
 
+//! overload labels that the *_long targets leave out (the histogram holds at most ~90 labels per target; the overloads are
+//! selected by the same draw as in the original target)
+void detail_label(const char* l) {
+    if (!long_mode()) pbt::label(l);
+}
+
 } // namespace
 
 void c19_helpers(pbt::Source& src) {
@@ -130,19 +199,19 @@ void c19_helpers(pbt::Source& src) {
     case 1: { // ---- replace_first / replace_all ----
         bool all = fn == 1;
         const std::string A = src.boolean() ? std::string("aab") : std::string("abc") + '\0' + (char)0x80;
-        std::string str = gen_over(src, A, 12);
+        std::string str = gen_main(src, A, 12, 5000, (ov & 1) ? HUGE_OK : HUGE_NO);
         bool chars = (ov & 1) != 0, inplace = (ov & 2) != 0;
+        bool long_needle = long_mode() && src.chance(64); // *_long: needles of any length (else cut to 3 as before)
         std::string needle, instead;
         if (chars) needle = std::string(1, A[src.index(A.size())]), instead = std::string(1, (std::string("xab") + '\0')[src.index(4)]);
         else {
             static const char* const SELF_OVERLAPPING[] = {"aa", "aba", "aaa", "abab"};
             needle = src.chance(64) ? std::string(SELF_OVERLAPPING[src.range(0, 3)]) : gen_related(src, str, "ab", 3);
-            if (needle.size() > 4) needle.resize(3);
+            if (needle.size() > 4 && !long_needle) needle.resize(3);
             if (needle.empty()) needle = "a"; // documented for a needle that can be searched for; empty needle excluded
-            instead = gen_over(src, "abx", 4);
+            instead = gen_aux(src, "abx", 4);
             if (src.chance(64)) instead = needle + instead; // replacement that contains the needle again
         }
-        std::string want = ref_replace(str, needle, instead, all);
         size_t occ = 0, overlapping = 0, prev = npos;
         for (size_t p = 0; p + needle.size() <= str.size(); ++p)
             if (contains_at(str, p, needle)) {
@@ -150,6 +219,12 @@ void c19_helpers(pbt::Source& src) {
                 if (prev != npos && p < prev + needle.size()) ++overlapping;
                 prev = p;
             }
+        if (long_mode()) {
+            if (occ * instead.size() > 300000) instead.resize(300000 / occ); // bounds the (quadratic) in-place splice work
+            if (occ >= 255) pbt::label("replace:>=255-occurrences");
+            if (needle.size() > 4 || instead.size() > 8) pbt::label("replace:long-needle-or-replacement");
+        }
+        std::string want = ref_replace(str, needle, instead, all);
         pbt::label(all ? "fn:replace_all" : "fn:replace_first");
         static const char* const OL[4] = {"replace:copy,string", "replace:copy,char", "replace:in-place,string", "replace:in-place,char"};
         pbt::label(OL[ov & 3]);
@@ -185,15 +260,24 @@ void c19_helpers(pbt::Source& src) {
         int form = ov % 3;                      // 0 std::string*, 1 string_view*, 2 string_view by value
         int dropkind = (int)src.range(0, 2);    // 0 default, 1 string, 2 char
         const std::string A = std::string(" \t\n\rab") + '\0' + (char)0xFF;
-        std::string str = gen_over(src, A, 10);
+        std::string str = gen_main(src, A, 10, 5000, HUGE_OK);
         std::string drop = " \r\n\t";
-        if (dropkind == 1) drop = gen_over(src, A, 3);
+        if (dropkind == 1) drop = gen_aux(src, A, 3);
         if (dropkind == 2) drop = std::string(1, A[src.index(A.size())]);
+        if (long_mode() && !drop.empty() && src.boolean()) { // long runs of dropped letters at one or both ends
+            size_t l1 = src.boolean() ? gen_long_len(src) : 0, l2 = src.boolean() ? gen_long_len(src) : 0;
+            Rng rng(src.bits(4));
+            std::string pre, post;
+            for (size_t i = 0; i < l1; ++i) pre += drop[rng.below(drop.size())];
+            for (size_t i = 0; i < l2; ++i) post += drop[rng.below(drop.size())];
+            str = pre + str + post;
+        }
         std::string want = ref_trim(str, drop, left, right);
+        if (long_mode() && str.size() - want.size() >= 255) pbt::label("trim:>=255-dropped");
         static const char* const FL[3] = {"fn:trim", "fn:trim_left", "fn:trim_right"};
         static const char* const FO[3] = {"trim:std::string*", "trim:string_view*", "trim:string_view"};
         static const char* const DK[3] = {"trim:default-drop", "trim:drop-string", "trim:drop-char"};
-        pbt::label(FL[fn - 2]), pbt::label(FO[form]), pbt::label(DK[dropkind]);
+        pbt::label(FL[fn - 2]), detail_label(FO[form]), detail_label(DK[dropkind]);
         if (want.empty() && !str.empty()) pbt::label("trim:everything-dropped");
         if (want.size() != str.size() && !want.empty()) pbt::label("trim:some-dropped");
         if (dropkind == 1 && drop.empty()) pbt::label("trim:empty-drop-set");
@@ -226,13 +310,14 @@ void c19_helpers(pbt::Source& src) {
         break;
     }
     case 5: { // ---- starts_with / starts_with_icase ----
-        std::string str = gen_over(src, ALPHA, 8), m = gen_related(src, str, ALPHA, 4);
+        std::string str = gen_main(src, ALPHA, 8, 5000, HUGE_OK), m = gen_related(src, str, ALPHA, 4);
         bool icase = ov & 1;
         bool want = m.size() <= str.size() && (icase ? ref_lower(str.substr(0, m.size())) == ref_lower(m) : str.compare(0, m.size(), m) == 0);
         pbt::label(icase ? "fn:starts_with_icase" : "fn:starts_with");
         pbt::label(want ? "prefix:true" : "prefix:false");
         if (want && !m.empty()) pbt::nontrivial();
         if (m.size() > str.size()) pbt::label("prefix:match-longer");
+        if (long_mode() && want && m.size() >= 255) pbt::label("match:true,>=255-bytes");
         PBT_LOG((icase ? "starts_with_icase(" : "starts_with(") << show(str) << ", " << show(m) << ")\n");
         Buf sb(str), mb(m);
         bool got = icase ? tlx::starts_with_icase(sb.view(), mb.view()) : tlx::starts_with(sb.view(), mb.view());
@@ -243,11 +328,16 @@ void c19_helpers(pbt::Source& src) {
     case 6: { // ---- ends_with / ends_with_icase, four overloads each ----
         bool icase = ov & 1;
         int form = (ov >> 1) & 3; // 0 (cstr,cstr) 1 (cstr,view) 2 (view,cstr) 3 (view,view)
-        std::string str = gen_over(src, ALPHA, 8), m;
-        switch (src.range(0, 3)) {
+        std::string str = gen_main(src, ALPHA, 8, 5000, HUGE_OK), m;
+        switch (src.range(0, long_mode() ? 5 : 3)) {
         case 0: m = gen_over(src, ALPHA, 4); break;
         case 1: m = str.substr(src.index(str.size() + 1)); break;
         case 2: m = flip_case(str.substr(src.index(str.size() + 1)), src); break;
+        case 4: // (*_long) suffix whose first byte differs: the mismatch is the last byte compared
+            m = str.substr(src.index(str.size() + 1));
+            if (!m.empty()) m[0] = ALPHA[src.index(ALPHA.size())];
+            break;
+        case 5: m = gen_related(src, str, ALPHA, 4); break; // (*_long)
         default: m = gen_over(src, ALPHA, 2) + str; break;
         }
         if (form == 0 || form == 1) str = strip_nul(str);
@@ -259,6 +349,7 @@ void c19_helpers(pbt::Source& src) {
         pbt::label(FO[form]);
         pbt::label(want ? "suffix:true" : "suffix:false");
         if (m.size() > str.size()) pbt::label("suffix:match-longer");
+        if (long_mode() && want && m.size() >= 255) pbt::label("match:true,>=255-bytes");
         if (want && !m.empty()) pbt::nontrivial();
         PBT_LOG((icase ? "ends_with_icase(" : "ends_with(") << show(str) << ", " << show(m) << ") " << FO[form] << "\n");
         Buf sb(str, true), mb(m, true); // NUL-terminated for the C-string overloads; views use exactly n bytes
@@ -279,7 +370,7 @@ void c19_helpers(pbt::Source& src) {
         break;
     }
     case 7: { // ---- contains ----
-        std::string str = gen_over(src, ALPHA, 8);
+        std::string str = gen_main(src, ALPHA, 8, 5000, HUGE_OK);
         Buf sb(str);
         if (ov & 1) {
             char c = ALPHA[src.index(ALPHA.size())];
@@ -296,6 +387,7 @@ void c19_helpers(pbt::Source& src) {
             pbt::label("fn:contains(string)");
             pbt::label(want ? "contains:true" : "contains:false");
             if (p.empty()) pbt::label("contains:empty-pattern");
+            if (long_mode() && want && p.size() >= 255) pbt::label("match:true,>=255-bytes");
             if (want && !p.empty()) pbt::nontrivial();
             PBT_LOG("contains(" << show(str) << ", " << show(p) << ")\n");
             Buf pb(p);
@@ -322,7 +414,7 @@ void c19_helpers(pbt::Source& src) {
                 char c1 = (char)src.u8(), c2 = (char)src.u8();
                 alphabet = std::string("aZ") + c1 + c2;
             }
-            std::string str = gen_over(src, alphabet, 10);
+            std::string str = gen_main(src, alphabet, 10, 5000, HUGE_OK);
             std::string want = upper ? ref_upper(str) : ref_lower(str), got;
             pbt::label(form == 1 ? "case:in-place" : "case:copy");
             if (want != str) pbt::nontrivial();
@@ -343,7 +435,7 @@ void c19_helpers(pbt::Source& src) {
     }
     case 9: { // ---- compare_icase, four overloads ----
         int form = ov & 3; // 0 (cstr,cstr) 1 (cstr,view) 2 (view,cstr) 3 (view,view)
-        std::string a = gen_over(src, ALPHA, 6), b = gen_related(src, a, ALPHA, 6);
+        std::string a = gen_main(src, ALPHA, 6, 5000, HUGE_OK), b = gen_related(src, a, ALPHA, 6);
         if (src.boolean()) std::swap(a, b);
         if (form == 0 || form == 1) a = strip_nul(a);
         if (form == 0 || form == 2) b = strip_nul(b);
@@ -374,18 +466,19 @@ void c19_helpers(pbt::Source& src) {
     case 10: { // ---- erase_all ----
         int form = ov % 6; // 0 in-place default, 1 in-place char, 2 in-place string, 3 copy default, 4 copy char, 5 copy string
         const std::string A = std::string(" ab") + '\0' + (char)0xFF;
-        std::string str = gen_over(src, A, 10);
+        std::string str = gen_main(src, A, 10, 5000, form >= 3 ? HUGE_OK : HUGE_NO);
         std::string drop = " ";
         if (form % 3 == 1) drop = std::string(1, A[src.index(A.size())]);
-        if (form % 3 == 2) drop = gen_over(src, A, 3);
+        if (form % 3 == 2) drop = gen_aux(src, A, 3);
         std::string want;
         for (char c : str)
             if (drop.find(c) == npos) want += c;
         static const char* const FO[6] = {"erase_all:in-place,default", "erase_all:in-place,char", "erase_all:in-place,string",
                                           "erase_all:copy,default",     "erase_all:copy,char",     "erase_all:copy,string"};
         pbt::label("fn:erase_all");
-        pbt::label(FO[form]);
+        detail_label(FO[form]);
         if (want.empty() && !str.empty()) pbt::label("erase_all:everything-erased");
+        if (long_mode() && str.size() - want.size() >= 255) pbt::label("erase_all:>=255-erased");
         if (want.size() != str.size()) pbt::nontrivial();
         PBT_LOG("erase_all(" << show(str) << ", " << show(drop) << ") " << FO[form] << "\n");
         Buf sb(str), db(drop);
@@ -401,14 +494,23 @@ void c19_helpers(pbt::Source& src) {
         break;
     }
     case 11: { // ---- pad ----
-        std::string str = gen_over(src, ALPHA, 8);
+        std::string str = gen_main(src, ALPHA, 8, 5000, HUGE_OK);
         size_t len = (size_t)src.range(0, 12);
+        if (long_mode()) switch (src.range(0, 5)) { // *_long: widths around the string length, independent long ones, small ones
+            case 0: len = (str.empty() ? 0 : str.size() - 1) + (size_t)src.range(0, 2); break;
+            case 1: len = gen_long_len(src, 5000, HUGE_OK); break;
+            case 2: len = str.size() + gen_long_len(src); break;
+            case 3: len = str.size() - std::min(str.size(), gen_long_len(src)); break;
+            case 4: len = src.index(str.size() + 1); break;
+            default: break;
+            }
         bool dflt = ov & 1;
         char pc = dflt ? ' ' : ALPHA[src.index(ALPHA.size())];
         std::string want = str.substr(0, std::min(len, str.size()));
         want.resize(len, pc);
         pbt::label("fn:pad");
         pbt::label(len < str.size() ? "pad:truncates" : len == str.size() ? "pad:exact" : "pad:pads");
+        if (long_mode() && len >= 255) pbt::label("pad:width>=255");
         if (len != str.size()) pbt::nontrivial();
         PBT_LOG("pad(" << show(str) << ", " << len << ", " << show_char(pc) << ")\n");
         Buf sb(str);
@@ -419,9 +521,29 @@ void c19_helpers(pbt::Source& src) {
     default: { // ---- levenshtein / levenshtein_icase ----
         bool icase = ov & 1, cstr = ov & 2;
         const std::string A = std::string("abAB") + (cstr ? "c" : std::string(1, '\0')) + (char)0xC1 + (char)0xE1;
-        std::string a = gen_over(src, A, src.chance(16) ? 24 : 7), b = gen_related(src, a, A, 7);
+        std::string a, b;
+        if (long_mode()) {
+            // the reference is O(|a| |b|): mostly 255..320 characters, some 511..513 and up to 700, rarely 1000..1500
+            size_t n;
+            switch (src.weighted({6, 4, 3, 3, 2, 1})) {
+            case 0: n = 255 + (size_t)src.range(0, 2); break;
+            case 1: n = (size_t)src.range(258, 320); break;
+            case 2: n = (size_t)src.range(13, 254); break;
+            case 3: n = 511 + (size_t)src.range(0, 2); break;
+            case 4: n = (size_t)src.range(321, 700); break;
+            default: n = (size_t)src.range(1000, 1500); break;
+            }
+            a = gen_shaped(src, A, n);
+            b = gen_related(src, a, A, 7, std::min<size_t>(n, 400));
+            label_len(std::max(a.size(), b.size()));
+        } else
+            a = gen_over(src, A, src.chance(16) ? 24 : 7), b = gen_related(src, a, A, 7);
         if (src.boolean()) std::swap(a, b);
         size_t want = ref_levenshtein(a, b, icase);
+        if (long_mode()) {
+            if (std::max(a.size(), b.size()) >= 256) pbt::label("lev:longer>=256");
+            if (std::min(a.size(), b.size()) >= 256) pbt::label("lev:both>=256");
+        }
         pbt::label(icase ? "fn:levenshtein_icase" : "fn:levenshtein");
         pbt::label(cstr ? "lev:(cstr,cstr)" : "lev:(view,view)");
         if (a.empty() || b.empty()) pbt::label("lev:one-empty");
